@@ -1,6 +1,7 @@
 import GeoVerif.Proofs.DMSClosure
 import GeoVerif.Proofs.DMSNul
 import GeoVerif.Proofs.DMSStrVal
+import GeoVerif.Proofs.DMSRoundTrip
 /-!
 # C10 — text formatting and parsing of angles and positions: property theorems
 
@@ -550,6 +551,85 @@ theorem str_val_reads_units (s : Bool) (m : Nat) (e : Int) (p : Nat) :
        | .inf _ => none
        | v => some (if s then F64.neg v else v)) :=
   ⟨trim_noop _ (fmtFixed_nospace _ p), valPlain_fmtFixed s m e p⟩
+
+/-! ## the round-trip bounds (rational error bounds over the exact binary64 model, `IsRN` rounding theory) -/
+
+/-- **the one rounding of `%.*f`**: the printed count of units `fixedUnits x p` is within half a unit of `|x|·10^p` -/
+theorem fixedUnits_half_unit (s : Bool) (m : ℕ) (e : ℤ) (p : ℕ) :
+    |((fixedUnits (F64.fin s m e) p : ℕ) : ℚ) - |(F64.fin s m e).val| * 10 ^ p| ≤ 1 / 2 := fixedUnits_half s m e p
+
+/-- **`encode_value_bound`: what `encodeHead` does, with constants.**  For every binary64 value `x` (finite,
+    representable, below the overflow threshold), trailing unit `t` (scale `sc` = 1, 60, 3600), requested precision
+    `prec` (effective `P = clampPrec t prec`) and flag other than AZIMUTH: the sign is the sign bit of `x`; the whole
+    degrees `⌊|x|⌋` are split off exactly (0 for DEGREE) and the fractional part `|x| − ⌊|x|⌋` is computed exactly; it is
+    multiplied by `sc` with ONE binary64 rounding and printed with ONE decimal rounding (`fixedUnits`, half-even) to
+    `units` counts of `10^-P` trailing units.  Hence the printed value `idegree + units/(sc·10^P)` is within
+    `½·10^-P/sc + 2^-53` of `|x|` (for DEGREE without the `2^-53`: `encodeHead_bound_deg`). -/
+theorem encode_value_bound (s : Bool) (m : ℕ) (e : ℤ) (hx : F64.IsRep (F64.fin s m e))
+    (hb : |(F64.fin s m e).val| < (2:ℚ) ^ (1024:ℤ))
+    (trailing prec : ℕ) (ht : trailing = 0 ∨ trailing = 1 ∨ trailing = 2) (ind : Flag) (hind : ind ≠ Flag.azi) :
+    let x := F64.fin s m e
+    let h := encodeHead x trailing prec ind
+    let P := clampPrec trailing prec
+    let sc : ℚ := scaleOf trailing
+    h.neg = s ∧ h.prec = P ∧
+    h.idegree.isFinite = true ∧ h.idegree.signbit = false ∧
+    h.idegree.val = (if trailing = 0 then 0 else ((⌊|x.val|⌋ : ℤ) : ℚ)) ∧
+    |(h.idegree.val + (h.units : ℚ) / (sc * 10 ^ P) - |x.val|)| ≤ (1 / 2) / (sc * 10 ^ P) + (2:ℚ) ^ (-(53:ℤ)) :=
+  encodeHead_bound s m e hx hb trailing prec ht ind hind
+
+/-- the rounded count can reach but not exceed one whole degree (so the carry into the degrees is 0 or 1 and minutes,
+    seconds < 60 after the carry, `encode_normalised_*`) -/
+theorem encode_units_le_degree (s : Bool) (m : ℕ) (e : ℤ) (hx : F64.IsRep (F64.fin s m e))
+    (trailing prec : ℕ) (ht : trailing = 1 ∨ trailing = 2) (ind : Flag) (hind : ind ≠ Flag.azi) :
+    ((encodeHead (F64.fin s m e) trailing prec ind).units : ℚ) ≤ (scaleOf trailing : ℚ) * 10 ^ clampPrec trailing prec :=
+  (encodeHead_bound_ms s m e hx trailing prec ht ind hind).2.2.2.2.2.2
+
+/-- **the decoder side**: for slots with degrees `< 2^41`, minutes and seconds `< 60`, at most 15 fraction digits and a
+    point only in the last non-zero component, the numeric stage of `Decode` succeeds and returns a binary64 within
+    `4·2^-53·V` of `±V`, `V = d + m/60 + s/3600` the exact rational value of the fields (integer parts are accumulated
+    exactly, `strtod` is one correct rounding, the sum and the division one each) -/
+theorem decode_value_bound (neg : Bool) (sl : Slots)
+    (hD : sl.d.int < 2 ^ 41) (hM : sl.m.int < 60) (hS : sl.s.int < 60)
+    (hd : NumOK sl.d) (hm : NumOK sl.m) (hs : NumOK sl.s)
+    (hlast_s : numVal sl.s ≠ 0 → sl.d.point = false ∧ sl.m.point = false)
+    (hlast_m : numVal sl.m ≠ 0 → sl.d.point = false) :
+    let V : ℚ := numVal sl.d + numVal sl.m / 60 + numVal sl.s / 3600
+    ∃ v : F64, evalSlots neg sl = .ok v ∧ F64.IsRep v ∧ |v.val| ≤ 2 ^ 53 ∧
+      |v.val - (if neg then -V else V)| ≤ 4 * (2:ℚ) ^ (-(53:ℤ)) * V :=
+  evalSlots_bound neg sl hD hM hS hd hm hs hlast_s hlast_m
+
+/-- **`roundtrip_bound`**: for every binary64 value `x` with `|x| < 2^40`, trailing DEGREE / MINUTE / SECOND, every
+    precision, flag NONE / LATITUDE / LONGITUDE and separator none or `:`:
+    `Decode (Encode x …)` succeeds with the flag of the hemisphere class and a finite value `y` with
+
+      `|y − x| ≤ B + 4·2^-53·(|x| + B)`,   `B = ½·10^-P/sc + 2^-53`,  `P = clampPrec t p`, `sc = 1, 60, 3600`
+
+    (`rtBound`): half a unit of the last printed digit, the one binary rounding of the scaling in `Encode`, and the
+    three roundings of `Decode`.  Partial with respect to DESIGN §5 in two ways: AZIMUTH (where `Encode` first reduces
+    the angle with `AngNormalize`) is not covered, and the degrees are limited to `2^40` (beyond `2^53` the statement is
+    false for the code as it is: finding F33, digit-by-digit accumulation). -/
+theorem roundtrip_bound (s : Bool) (m : ℕ) (e : ℤ) (hx : F64.IsRep (F64.fin s m e)) (hb : |(F64.fin s m e).val| < 2 ^ 40)
+    (t p : ℕ) (ht : t ≤ 2) (ind : Flag) (hind : ind = Flag.none ∨ ind = Flag.lat ∨ ind = Flag.lon) (sep : ℕ)
+    (hsep : sep = 0 ∨ sep = 58) :
+    ∃ y : F64, decode (encode (F64.fin s m e) t p ind sep) = .ok (y, readFlag ind) ∧ y.isFinite = true ∧
+      |(y.val - (F64.fin s m e).val)| ≤
+        ((1 / 2) / ((scaleOf t : ℚ) * 10 ^ clampPrec t p) + (2:ℚ) ^ (-(53:ℤ))) +
+          4 * (2:ℚ) ^ (-(53:ℤ)) * (|(F64.fin s m e).val| + ((1 / 2) / ((scaleOf t : ℚ) * 10 ^ clampPrec t p) + (2:ℚ) ^ (-(53:ℤ)))) :=
+  roundtrip_all s m e hx hb t p ht ind hind sep hsep
+
+-- non-vacuity: 10.5 is a binary64 value below 2^40
+example : F64.IsRep (F64.fin false 21 (-1)) ∧ |(F64.fin false 21 (-1)).val| < 2 ^ 40 := by
+  refine ⟨⟨rfl, 21, -1, by norm_num, by norm_num, by rw [F64.val_fin]; simp⟩, ?_⟩
+  rw [F64.val_fin]; norm_num
+
+/-- **`str_val_roundtrip`** (finite values): for `|x| ≤ 2^52` and precision `p ≤ 30`, `Utility::val (Utility::str x p)`
+    succeeds with a finite `y`, `|y − x| ≤ ½·10^-p + 2^-53·(|x| + 1)` (the decimal rounding of `str`, the binary rounding
+    of `strtod`).  Non-finite values: `str_val_nonfinite`. -/
+theorem str_val_roundtrip (s : Bool) (m : ℕ) (e : ℤ) (hb : |(F64.fin s m e).val| ≤ 2 ^ 52) (p : ℕ) (hp : p ≤ 30) :
+    ∃ y : F64, utilVal (utilStr (F64.fin s m e) p) = .ok y ∧ y.isFinite = true ∧
+      |(y.val - (F64.fin s m e).val)| ≤ (1 / 2) / 10 ^ p + (2:ℚ) ^ (-(53:ℤ)) * (|(F64.fin s m e).val| + 1) :=
+  utilVal_utilStr s m e hb p hp
 
 /-- none of the substitution patterns contains a NUL, and none replaces by a digit, point or letter: the table can only
     produce `d ' " + -` or delete (Gen-obligation) -/
